@@ -25,7 +25,8 @@ Definition view_of (D : dmap) : list obs := map (fun kv => obs_of_dentry (fst kv
 (* what two names of one inode share *)
 Definition link_meta_eq (t s : stat) : Prop :=
   st_mode t = st_mode s /\ st_uid t = st_uid s /\ st_gid t = st_gid s /\ st_size t = st_size s
-  /\ st_mtime t = st_mtime s /\ st_devmajor t = st_devmajor s /\ st_devminor t = st_devminor s.
+  /\ st_mtime t = st_mtime s /\ st_devmajor t = st_devmajor s /\ st_devminor t = st_devminor s
+  /\ st_xattrs t = st_xattrs s.
 
 (* canonical hard-link presentation: a link entry names an EARLIER entry that is the regular
    file itself (empty Linkname: the first name of the inode in walk order), with the same
@@ -39,7 +40,8 @@ Definition links_canon (B : list AbsDest.entry) : Prop :=
 Definition link_meta_eqb (t s : stat) : bool :=
   N.eqb (st_mode t) (st_mode s) && N.eqb (st_uid t) (st_uid s) && N.eqb (st_gid t) (st_gid s)
   && N.eqb (st_size t) (st_size s) && N.eqb (st_mtime t) (st_mtime s)
-  && N.eqb (st_devmajor t) (st_devmajor s) && N.eqb (st_devminor t) (st_devminor s).
+  && N.eqb (st_devmajor t) (st_devmajor s) && N.eqb (st_devminor t) (st_devminor s)
+  && xattrs_eqb (st_xattrs t) (st_xattrs s).
 
 Definition links_canon_b (B : list AbsDest.entry) : bool :=
   forallb (fun e => negb (is_hardlink (fst e)) ||
